@@ -74,6 +74,9 @@ type replayFile struct {
 	Trace     []string `json:"trace,omitempty"`
 	OrigTape  int      `json:"original_tape_len"`
 	Attempts  int      `json:"minimisation_attempts"`
+	// Deterministic is false only for a data-race report that the batch produced but that
+	// the tape did not show again in fresh processes (the racing code's own nondeterminism).
+	Deterministic bool `json:"replays_deterministically"`
 }
 
 func findPart(prop, name string) (part, bool) {
@@ -385,18 +388,36 @@ func cmdCheck(prop, tier string) int {
 			tape, attempts = minimise(prop, p, tier, seedBase, r.Index, r.Tape, k.sig, budget)
 		}
 		final, err := runTape(prop, p, tier, seedBase, r.Index, tape, true)
+		deterministic := true
 		if err != nil || hasSig(final, k.sig) == nil {
 			// fall back to the unminimised tape
-			final, err = runTape(prop, p, tier, seedBase, r.Index, r.Tape, true)
 			tape = r.Tape
-			if err != nil || hasSig(final, k.sig) == nil {
-				infra = append(infra, fmt.Sprintf("violation %s/%s %q at run %d did not reproduce from its tape", prop, k.part, k.sig, r.Index))
-				continue
+			tries := 1
+			if strings.HasPrefix(k.sig, "race:") {
+				// whether the detector sees both accesses can depend on things the code under
+				// test brought in itself (sync.Pool, GC); try a few fresh processes
+				tries = 4
+			}
+			ok := false
+			for a := 0; a < tries && !ok; a++ {
+				final, err = runTape(prop, p, tier, seedBase, r.Index, r.Tape, true)
+				ok = err == nil && hasSig(final, k.sig) != nil
+			}
+			if !ok {
+				if strings.HasPrefix(k.sig, "race:") && hasSig(r, k.sig) != nil {
+					// a data race was reported during the batch and is kept as a violation even
+					// though this tape does not show it again (recorded in the replay file)
+					deterministic = false
+					final = r
+				} else {
+					infra = append(infra, fmt.Sprintf("violation %s/%s %q at run %d did not reproduce from its tape", prop, k.part, k.sig, r.Index))
+					continue
+				}
 			}
 		}
 		v := hasSig(final, k.sig)
 		rf := replayFile{Property: prop, Part: k.part, Tier: tier, Signature: k.sig, SeedBase: seedBase, Index: r.Index, Seed: r.Seed,
-			Tape: tape, Detail: v.Detail, Decoded: final.Decoded, Trace: final.Trace, OrigTape: len(r.Tape), Attempts: attempts}
+			Tape: tape, Detail: v.Detail, Decoded: final.Decoded, Trace: final.Trace, OrigTape: len(r.Tape), Attempts: attempts, Deterministic: deterministic}
 		os.MkdirAll(filepath.Join(verifDir, "replays"), 0o755)
 		name := fmt.Sprintf("%s-%s-%d.json", prop, sanitize(k.sig), r.Index)
 		path := filepath.Join(verifDir, "replays", name)
